@@ -81,7 +81,11 @@ Elems(ta)    == [i \in 1..(Len(ta) - 1) |-> <<ta[i + 1]>>]
 
 (* ---- does a claimed set of types cover a run-time tag ------------------- *)
 (* a claimed type is a tag; <<"any">> covers everything; a bare constructor  *)
-(* (<<"list">>, <<"tuple">>) covers every value with that head               *)
-CoversOne(c, t) == c = <<"any">> \/ c = t \/ (Len(c) = 1 /\ c[1] = t[1])
+(* (<<"list">>, <<"tuple">>) covers every value with that head; an element    *)
+(* "any" of a tuple shape covers every element                                *)
+CoversOne(c, t) ==
+  \/ c = <<"any">>
+  \/ (Len(c) = 1 /\ c[1] = t[1])
+  \/ (Len(c) = Len(t) /\ c[1] = t[1] /\ \A i \in 2..Len(c) : c[i] = t[i] \/ c[i] = "any")
 Covers(cs, t)   == \E i \in 1..Len(cs) : CoversOne(cs[i], t)
 =============================================================================
